@@ -22,6 +22,7 @@ import os
 
 from vlib import core, codegen_synth as cs, codegen_emit as ce
 from vlib import codegen_step as st
+from vlib import codegen_gen
 from vlib.core import Broken, Mismatch, Failing
 
 ID = 'C13'
@@ -139,11 +140,44 @@ def prove(ctx):
     with ctx.coq_lock():
         langs, used = extract_tables()
         ctx.write_gen('gen/C13_tables.v', tables_v(langs, used))
-        ctx.prove('Properties/C13.v')
+        # tie T: regenerate gen/CodegenGen.v from the current codegen.py,
+        # then re-prove GenProofs/CodegenBridge.v (generated code = model)
+        # and the statements built on it
+        notes, templates = codegen_gen.ensure_codegen(ctx)
+        ctx.prove_with_deps('Properties/C13.v')
     _count_theory_lemmas(ctx, ['BitsProofs', 'DagProofs', 'StepProofs',
                                'RenderProofs'])
     ctx.extra['languages_table'] = langs
     ctx.extra['syntax_keys_used'] = used
+    ctx.extra['translation'] = dict(
+        sources=codegen_gen.SOURCES, functions=codegen_gen.FUNCTIONS,
+        generated='coq/' + codegen_gen.GEN,
+        bridge='coq/GenProofs/CodegenBridge.v',
+        texts=[f'{t}   :   {toks}' for t, toks in templates],
+        notes=notes)
+    ctx.trusted.append(
+        'translator tie T: tools/py2coq_codegen.py (codegen._latch_name, '
+        '_latch_ref, _register_nodes, _append_sep, _comment_level, '
+        '_dumps_node, _dumps_layer, _collect_layers, dumps_bdd_as_code, '
+        'int_to_bits, assign_bitvectors, _list_bits and '
+        'bitvector.twos_complement_to_int -> Gallina, proved equal to '
+        'theories/L7Codegen/{Bits,Dag,Render,Step}.v on every run: '
+        'int_to_bits and twos_complement_to_int Leibniz; the emitter '
+        'returns the token list Render.render lays out for the program of '
+        'Dag.dumps_bdd_as_code, for any accessors that agree with the DAG; '
+        '_list_bits / assign_bitvectors on the table of a layout list the '
+        'names of Step.list_bits / map every state variable to '
+        'Bits.encode of its value). '
+        'Trusted in it: a text is read as the list of its tokens - the '
+        'literal text of the f-strings is cut by the translator with the '
+        'rules of Render.lex, a table entry pasted between delimiters is one '
+        'token (none if empty), names pasted next to literal word characters '
+        'are assumed to consist of word characters, a pasted text is assumed '
+        'to begin and end at token boundaries (each such assumption is a '
+        'note in gen/CodegenGen.v); startswith / `in` on a text are read on '
+        'its tokens; a BDD reference is its integer key and bdd._add_int the '
+        'identity; defaultdict / dict / set as association lists and lists; '
+        'None for every raise / failed assert / KeyError; recursion on fuel')
     ctx.trusted.append(
         'meaning of the dd DAG accessors used by the emitter (int(u), u.var, '
         'u.negated, bdd.succ): the model evaluates the DAG read through them; '
